@@ -1,6 +1,6 @@
 #!/bin/bash
 # tools/try_patch.sh <patch> <Cxx> [<Cxx>...]  : apply patch to /repo, run the checks, revert
-P=$1; shift
+P=$(realpath "$1"); shift
 cd /repo || exit 2
 git diff --quiet || { echo "repo dirty"; exit 2; }
 git apply "$P" 2>/dev/null || git apply --3way "$P" 2>/dev/null || { git reset -q --hard HEAD; echo "PATCH DOES NOT APPLY"; exit 3; }
